@@ -60,24 +60,37 @@ structure ImageDs where
   oriSlide : List Rat := []
   deriving Repr, Inhabited
 
-/-- what `get_image_coordinate_system` looks at: the keywords present at the root of the dataset, and which of the present
-functional-group sequences hold `PlanePositionSequence[0].ImagePositionPatient` in their FIRST item -/
+/-- what `get_image_coordinate_system` looks at: the keywords present at the root of the dataset, which of the present
+functional-group sequences hold `PlanePositionSequence[0].ImagePositionPatient` in their FIRST item, and which of them cannot be
+indexed that far (the sequence itself or the `PlanePositionSequence` of its first item is EMPTY: `[0]` raises IndexError) -/
 structure CoordInput where
   present : List String
   firstItemHasPatientPosition : List String
+  emptyAtFirstItem : List String := []
   deriving Repr, Inhabited
+
+/-- the loop over the functional-group sequences, in the regenerated order: the first sequence that is present decides when it holds a
+patient position, raises when it cannot be indexed, and passes on to the next one otherwise -/
+def patientFromGroups (d : CoordInput) : List String → Except ErrKind (Option Coord)
+  | [] => .ok none
+  | k :: ks =>
+    if d.present.contains k then
+      if d.emptyAtFirstItem.contains k then .error .index
+      else if d.firstItemHasPatientPosition.contains k then .ok (some .patient)
+      else patientFromGroups d ks
+    else patientFromGroups d ks
 
 /-- `get_image_coordinate_system`: no frame of reference = none; a slide marker (regenerated list) = SLIDE, even when patient
 positions are present too; otherwise PATIENT iff an image position is found at the root or in the first item of one of the
 (regenerated) functional-group sequences -/
-def imageCoordinateSystem (d : CoordInput) : Option Coord :=
-  if !d.present.contains "FrameOfReferenceUID" then none
-  else if Gen.slideMarkers.any d.present.contains then some .slide
-  else if d.present.contains "ImagePositionPatient" then some .patient
-  else if Gen.patientGroupSequences.any (fun k => d.present.contains k && d.firstItemHasPatientPosition.contains k) then some .patient
-  else none
+def imageCoordinateSystem (d : CoordInput) : Except ErrKind (Option Coord) :=
+  if !d.present.contains "FrameOfReferenceUID" then .ok none
+  else if Gen.slideMarkers.any d.present.contains then .ok (some .slide)
+  else if d.present.contains "ImagePositionPatient" then .ok (some .patient)
+  else patientFromGroups d Gen.patientGroupSequences
 
-/-- Python's `seq[i]` (negative indices count from the end) -/
+/-- Python's `seq[i]` (negative indices count from the end; `_get_spatial_information` only gets here with `i ≥ 0` since the fix of
+C10-frame-number-lower-bound) -/
 def pyIndex {α : Type} (l : List α) (i : Int) : Except ErrKind α :=
   let j := if i < 0 then i + l.length else i
   if j < 0 then .error .index
@@ -149,7 +162,9 @@ def getSpatialInformation (ds : ImageDs) (frameNumber : Option Int) (forTotal : 
     else if ds.multiframe then
       match frameNumber with
       | none => .error .type
-      | some f => do
+      | some f =>
+        if f < Gen.firstFrameNumber then .error .index          -- a 1-based frame number below the first frame
+        else do
         let frameSeq ← (if ds.tiledFull.isSome && Gen.tiledFullHasNoFrameGroups then pure none
           else (pyIndex ds.perFrame (genInt (Gen.frameGroupIndex f))).map some : Except ErrKind (Option Groups))
         let m ← lookupIn (chainOrder "PixelMeasuresSequence") ds.shared frameSeq (·.measures)
